@@ -42,9 +42,10 @@ func init() {
 }
 
 type cfg struct {
-	N   int `json:"n"`   // bookkeepers
-	Pre int `json:"pre"` // valid blocks before the candidate
-	Ntx int `json:"ntx"` // transactions in the candidate block
+	N   int  `json:"n"`   // bookkeepers
+	Pre int  `json:"pre"` // valid blocks before the candidate
+	Ntx int  `json:"ntx"` // transactions in the candidate block
+	HF  bool `json:"hf"`  // also run the header-first phase (AddHeader of the valid header, then the mutants again)
 }
 
 type replayIn struct {
@@ -52,6 +53,8 @@ type replayIn struct {
 	Mut    string `json:"mut"`
 	Resign bool   `json:"resign"`
 	Via    string `json:"via"`
+	// the valid next header was accepted through AddHeader/AddHeaders before this offer
+	HeaderFirst bool `json:"header_first"`
 }
 
 var vias = []string{"wire", "mem", "submit", "verify"}
@@ -71,10 +74,10 @@ func Run(x *hx.Ctx) {
 			idx++
 		}
 	}
-	cfgs := []cfg{{N: 1, Pre: 1, Ntx: 1}, {N: 4, Pre: 2, Ntx: 2}, {N: 7, Pre: 0, Ntx: 0}, {N: 2, Pre: 1, Ntx: 0}}
+	cfgs := []cfg{{N: 1, Pre: 1, Ntx: 1, HF: true}, {N: 4, Pre: 2, Ntx: 2, HF: true}, {N: 7, Pre: 0, Ntx: 0, HF: true}, {N: 2, Pre: 1, Ntx: 0, HF: true}}
 	extra := x.N(2, 24)
 	for i := 0; i < extra; i++ {
-		cfgs = append(cfgs, cfg{N: []int{1, 2, 3, 4, 5, 7}[x.Intn(6)], Pre: x.Intn(4), Ntx: x.Intn(3)})
+		cfgs = append(cfgs, cfg{N: []int{1, 2, 3, 4, 5, 7}[x.Intn(6)], Pre: x.Intn(4), Ntx: x.Intn(3), HF: i%2 == 1})
 	}
 	for _, cf := range cfgs {
 		runChain(x, cf, idx, nil)
@@ -100,6 +103,7 @@ type run struct {
 	last   map[string]string // digest after the previous step
 	offers []string
 	only   *replayIn
+	hf     bool // the valid next header is in the header cache (header-first phase)
 }
 
 func idList(ids []uint64) string {
@@ -200,6 +204,7 @@ func (r *run) coqObs(d map[string]string, stateRootValid bool) string {
 
 var errTable = []struct{ sub, coq string }{
 	{"not equal next block height", "EHeight"},
+	{"not equal next header height", "EHeight"},
 	{"cannot find pre header", "EPrevNotFound"},
 	{"can not find prevHeader", "EPrevNotFound"},
 	{"can not find previous block", "EPrevNotFound"},
@@ -303,6 +308,33 @@ func (r *run) expectation(b *types.Block, via string, sroot common.Uint256, hasE
 	return "reject"
 }
 
+// hdrExpectation: the harness's own statement of validity of a header offered to AddHeader
+// (header-first sync): next header height, known predecessor one below, later timestamp,
+// the predecessor's bookkeeper set, enough valid signatures. Block root, transactions and
+// state are not part of a header offer.
+func (r *run) hdrExpectation(h *types.Header) string {
+	l := r.c.k.Ledger
+	if h.Height != l.GetCurrentHeaderHeight()+1 {
+		return "reject"
+	}
+	if h.Height == 0 {
+		return "accept"
+	}
+	prev, err := l.GetHeaderByHash(h.PrevBlockHash)
+	if err != nil || prev == nil {
+		return "reject"
+	}
+	ok := prev.Height+1 == h.Height && h.Timestamp > prev.Timestamp
+	if ok {
+		a, err := types.AddressFromBookkeepers(h.Bookkeepers)
+		ok = err == nil && a == prev.NextBookkeeper && sigsOK(h, quorum(len(h.Bookkeepers)))
+	}
+	if ok {
+		return "accept"
+	}
+	return "reject"
+}
+
 // step offers one block through one entry point, runs the oracle and records the
 // correspondence offer. Returns whether the ledger accepted it.
 func (r *run) step(mu *mutant, via string, mustAccept bool, msgs []common.Uint256) bool {
@@ -332,7 +364,10 @@ func (r *run) step(mu *mutant, via string, mustAccept bool, msgs []common.Uint25
 	if via == "verify" {
 		exp = "pure"
 	}
-	in := replayIn{Cfg: r.cf, Mut: mu.Name, Resign: mu.Resign, Via: via}
+	if via == "hdr" || via == "hdrs" {
+		exp = r.hdrExpectation(blk.Header)
+	}
+	in := replayIn{Cfg: r.cf, Mut: mu.Name, Resign: mu.Resign, Via: via, HeaderFirst: r.hf}
 	if exp == "accept" && !mustAccept {
 		return false // a valid variant: kept for the end of the scenario
 	}
@@ -360,6 +395,10 @@ func (r *run) step(mu *mutant, via string, mustAccept bool, msgs []common.Uint25
 			err = l.SubmitBlock(cloneBlock(blk), nil, res)
 		case "verify":
 			err = validation.VerifyBlock(cloneBlock(blk), l, false)
+		case "hdr":
+			err = r.c.k.Store().AddHeader(cloneHeader(blk.Header))
+		case "hdrs":
+			err = l.AddHeaders([]*types.Header{cloneHeader(blk.Header)})
 		}
 	})
 	_ = decoded
@@ -392,16 +431,28 @@ func (r *run) step(mu *mutant, via string, mustAccept bool, msgs []common.Uint25
 		}
 	case "reject":
 		x.Count("outcome:" + orNil(errEnum(err)))
+		if via == "hdr" || via == "hdrs" {
+			kind = "header:" + kind
+		}
+		if r.hf {
+			x.Count("header-first-offers")
+		}
 		if err == nil {
 			x.Fail("accepted-invalid:"+kind, "an invalid block was not rejected (no error returned)", in, got, "an error and an unchanged ledger")
 			accepted = len(changed) > 0
 		} else if len(changed) > 0 {
 			x.Fail("changed-on-reject:"+kind, "a rejected block left the ledger changed", in, got, "digest identical before and after")
 		}
-		x.Nontrivial(fmt.Sprintf("%v|%s|%v|%s", r.cf, mu.Name, mu.Resign, via))
+		x.Nontrivial(fmt.Sprintf("%v|%s|%v|%s|%v", r.cf, mu.Name, mu.Resign, via, r.hf))
 	case "accept":
 		x.Count("outcome:added")
-		if err != nil || after["g.height"] != fmt.Sprint(cur+1) {
+		if via == "hdr" || via == "hdrs" {
+			if err != nil || after["g.hdrHeight"] != fmt.Sprint(blk.Header.Height) {
+				x.Fail("rejected-valid-header", "a valid next header was not accepted by AddHeader", in, got, "nil error, header height+1")
+			} else {
+				accepted = true
+			}
+		} else if err != nil || after["g.height"] != fmt.Sprint(cur+1) {
 			x.Fail("rejected-valid:"+kind, "a valid block was not added (after the invalid offers)", in, got, "nil error, height+1")
 		} else {
 			accepted = true
@@ -411,13 +462,13 @@ func (r *run) step(mu *mutant, via string, mustAccept bool, msgs []common.Uint25
 		x.Sample(map[string]interface{}{"cfg": r.cf, "mutation": mu.Name, "resigned": mu.Resign, "via": via, "expected": exp, "error": fmt.Sprint(err)})
 	}
 	// correspondence record
-	viaC := map[string]string{"wire": "VWire", "mem": "VMem", "submit": "VSubmit", "verify": "VVerify"}[via]
+	viaC := map[string]string{"wire": "VWire", "mem": "VMem", "submit": "VSubmit", "verify": "VVerify", "hdr": "VHeader", "hdrs": "VHeaders"}[via]
 	exC := "None"
 	if hasEx {
 		exC = "(Some " + r.coqExec(&res) + ")"
 	}
 	var resC string
-	if via == "verify" {
+	if via == "verify" || via == "hdr" || via == "hdrs" {
 		resC = "(OVerify " + hx.CoqOpt(err != nil, errEnum(err)) + ")"
 	} else if err != nil {
 		resC = "(OOut (Rejected " + errEnum(err) + "))"
@@ -538,9 +589,12 @@ func runChain(x *hx.Ctx, cf cfg, idx int, only *replayIn) {
 	}
 	muts := allMutants(m)
 	var acceptable []*mutant
+	wants := func(mu *mutant, via string, hf bool) bool {
+		return only == nil || (only.Mut == mu.Name && only.Resign == mu.Resign && only.Via == via && only.HeaderFirst == hf)
+	}
 	for _, mu := range muts {
 		for _, via := range vias {
-			if only != nil && !(only.Mut == mu.Name && only.Resign == mu.Resign && only.Via == via) {
+			if !wants(mu, via, false) {
 				continue
 			}
 			hBefore := l.GetCurrentBlockHeight()
@@ -555,6 +609,49 @@ func runChain(x *hx.Ctx, cf cfg, idx int, only *replayIn) {
 		// valid variants (e.g. another timestamp, re-signed) are candidates for the final block
 		if mu.stateRoot == "" || len(mu.blk.Transactions) == 0 {
 			acceptable = append(acceptable, mu)
+		}
+	}
+	if cf.HF {
+		// header-first sync. (a) every mutated header offered to AddHeader / AddHeaders itself:
+		// a rejected header must leave header height, header cache and index unchanged
+		for i, mu := range muts {
+			via := []string{"hdr", "hdrs"}[i%2]
+			if !wants(mu, via, false) {
+				continue
+			}
+			hh := l.GetCurrentHeaderHeight()
+			r.step(mu, via, false, msgs(mu.blk))
+			if l.GetCurrentHeaderHeight() != hh {
+				x.Note(fmt.Sprintf("chain %v: stopped after header %s/%s was accepted", cf, mu.Name, via))
+				r.emit(gblock, gex, gobs)
+				return
+			}
+		}
+		// (b) the VALID next header is accepted by AddHeader (or AddHeaders): it is now in the
+		// header cache and the header index; the digest taken after this step is the 'before'
+		// of the offers below. (c) every mutant again through AddBlock and SubmitBlock.
+		if only == nil || only.HeaderFirst {
+			hv := &mutant{Name: "valid-header", Kind: "valid", blk: valid}
+			if !r.step(hv, []string{"hdr", "hdrs"}[x.Intn(2)], true, msgs(valid)) {
+				r.emit(gblock, gex, gobs)
+				return
+			}
+			r.hf = true
+			for _, mu := range muts {
+				for _, via := range []string{"mem", "submit"} {
+					if !wants(mu, via, true) {
+						continue
+					}
+					hBefore := l.GetCurrentBlockHeight()
+					r.step(mu, via, false, msgs(mu.blk))
+					if l.GetCurrentBlockHeight() != hBefore {
+						x.Note(fmt.Sprintf("chain %v: stopped after %s/%s (header-first) was added", cf, mu.Name, via))
+						r.emit(gblock, gex, gobs)
+						return
+					}
+				}
+			}
+			r.hf = false
 		}
 	}
 	if only != nil {
@@ -580,7 +677,7 @@ func runChain(x *hx.Ctx, cf cfg, idx int, only *replayIn) {
 		}
 	}
 	x.Count(fmt.Sprintf("valid-variants:%d", len(cands)))
-	if len(cands) > 0 && x.Intn(2) == 0 {
+	if len(cands) > 0 && x.Intn(2) == 0 && !cf.HF {
 		final = cands[x.Intn(len(cands))]
 		for _, via := range []string{"mem", "submit", "wire"} {
 			blk := cloneBlock(final.blk)
